@@ -35,7 +35,10 @@ META = {
                   'patched, Apply on a handle hits exactly its target, and on one-shot histories the handle-level model refines the patch-level one. '
                   'Observed, not proved: the linker\'s naming, reflect\'s method table, compiler wrappers / shape bodies / '
                   'devirtualisation, register preservation by the entry jump.',
-    'level_note': 'Corpus obeys the README rule that the instance handed to Struct() has the receiver kind of the method (a value method '
+    'level_note': 'Promoted methods of embedded structs are mocked through the outer type and called through its method set (a real '
+                  'interface call); "method m of Outer" is the compiler-generated wrapper pkg.(*Outer).m, and a direct call o.m() is a call of '
+                  'the embedded type\'s method (Go semantics; the wrapper falling through to the base method is observed, `callVia`). '
+                  'Corpus obeys the README rule that the instance handed to Struct() has the receiver kind of the method (a value method '
                   'mocked through a pointer instance only patches the (*T).m wrapper). Instantiations of EQUAL GC shape share one body, so '
                   'mocking one mocks the other (the property only excludes different shapes). Known gaps recorded as findings: unexported '
                   'methods of generic instantiations cannot be mocked by name (C06-K1; histories that patch a generic wrapper by name and then mock the same method via Method() are checked by the oracle only, the model does not cover a patched wrapper). Outside the statement but observed: a callback on a generic '
@@ -59,7 +62,8 @@ LAYOUTS = {
     3: ('A int32; B int8; C int64', lambda a: f'A: {a}, B: 7, C: {a}9'),
     4: ('', lambda a: ''),
 }
-PARAMS = {0: ('', ''), 1: ('x int64', 'w.WantX'), 2: ('x int64, s string', 'w.WantX, w.WantS')}
+PARAMS = {0: ('', ''), 1: ('x int64', 'w.WantX'), 2: ('x int64, s string', 'w.WantX, w.WantS'),
+          3: ('a [4]int64, b [4]int64', 'w.WantArr, w.WantArr2')}   # kind 3: stack-passed arguments
 NAMEPOOL = ['Get', 'GetX', 'GetXY', 'get', 'getX', 'Set', 'Se', 'set', 'G', 'g', 'Value', 'Val', 'value', 'M', 'm', 'mm', 'Getx', 'gET']
 UNEXP_TYPES = ['t', 't2', 'tt', 'conn', 'conn2', 'connX', 'c', 'impl', 'implA', 'node', 'nodeList', 'n', 'state', 'st', 'e0', 'eE']
 GEN_ARGS = [  # Go type argument, reflect spelling, shape
@@ -77,8 +81,10 @@ GEN_ARGS = [  # Go type argument, reflect spelling, shape
 # ------------------------------------------------------------------ corpus
 
 class Ty:
-    def __init__(self, pk, name, layout, methods, generic=None):
+    def __init__(self, pk, name, layout, methods, generic=None, embeds=None, outer=None):
         self.pk, self.name, self.layout, self.methods, self.generic = pk, name, layout, methods, generic
+        self.embeds = embeds      # outer type: (base type name, 'A' | 'B' shape of the outer struct)
+        self.outer = outer        # base type: an outer type through which its methods are also called directly
         self.exported = name[0].isupper()
 
 
@@ -103,7 +109,7 @@ def gen_corpus(tier, rng):
             ptr = {'val': False, 'ptr': True}.get(policy)
             if ptr is None:
                 ptr = rng.chance(1, 2)
-            ms.append((nm, ptr, rng.below(3)))
+            ms.append((nm, ptr, rng.below(4)))
         return ms
 
     for i in range(n_exp):
@@ -125,19 +131,40 @@ def gen_corpus(tier, rng):
     types.append(Ty('a', 'b_T', 1, [('m', False, 1), ('M', False, 0), ('p', True, 1)]))
     gens = []
     for g in range(n_gen):
-        gm = [('Get', True, 0), ('GetX', True, 1), ('Val', False, 0), ('get', True, 0), ('Value', False, 2 if g % 2 else 1)]
+        gm = [('Get', True, 0), ('GetX', True, 1), ('Val', False, 0), ('get', True, 0), ('Value', False, 2 if g % 2 else 1),
+              ('Big', True, 3), ('BigV', False, 3)]      # stack-passed arguments: the CALL sits far into the instantiation wrapper
         gens.append((f'G{g}', gm))
         for a in range(n_inst):
             go, refl, shape = GEN_ARGS[(a + g) % len(GEN_ARGS)] if tier != 'quick' else GEN_ARGS[a % len(GEN_ARGS)]
             types.append(Ty('pa', f'G{g}[{refl}]', 5, gm, generic=(f'G{g}', go, f'G{g}[{shape}]')))
+    # embedding: a base struct with value and pointer methods, two different outer types sharing it
+    for b in range(2 if tier == 'quick' else 4):
+        bm = [('Name', True, 0), ('NameX', True, 1), ('Val', False, 0), ('name', True, 1), ('Big', True, 3), ('Value', False, 2)]
+        types.append(Ty('pa', f'B{b}', b % 2, bm, outer=f'WA{b}'))
+        types.append(Ty('pa', f'WA{b}', b % 2, [], embeds=(f'B{b}', 'A')))
+        types.append(Ty('pa', f'WB{b}', b % 2, [], embeds=(f'B{b}', 'B')))
     entries = []
+    byname = {}
     for t in types:
         for (m, ptr, np_) in t.methods:
             eid = len(entries)
             entries.append({'id': eid, 'pk': t.pk, 'pkg': PKGS[t.pk][0], 'T': t.name, 'ptr': ptr, 'm': m, 'np': np_,
                             'shape': t.generic[2] if t.generic else '-', 'K': 100000 + eid * 17, 'layout': t.layout,
-                            'exported_type': t.exported, 'generic': t.generic,
+                            'exported_type': t.exported, 'generic': t.generic, 'promoted': None, 'outer': t.outer,
                             'go': (f'{t.generic[0]}[{t.generic[1]}]' if t.generic else t.name)})
+            byname[(t.pk, t.name, m)] = entries[-1]
+        if t.embeds:
+            # promoted methods: the method set of *Outer holds compiler-generated wrappers pkg.(*Outer).m, entered by interface
+            # calls; mocking "method m of Outer" replaces exactly that wrapper.  Direct calls o.m() are calls of the base method.
+            base = next(x for x in types if x.pk == t.pk and x.name == t.embeds[0])
+            for (m, ptr, np_) in base.methods:
+                if not m[0].isupper():
+                    continue
+                be = byname[(t.pk, base.name, m)]
+                eid = len(entries)
+                entries.append({'id': eid, 'pk': t.pk, 'pkg': PKGS[t.pk][0], 'T': t.name, 'ptr': True, 'm': m, 'np': np_, 'shape': '-',
+                                'K': be['K'], 'layout': base.layout, 'exported_type': True, 'generic': None,
+                                'promoted': (base.name, t.embeds[1]), 'base_id': be['id'], 'outer': None, 'go': t.name})
     return types, gens, entries
 
 
@@ -181,10 +208,22 @@ def emit_sources(types, gens, entries, outdir):
             if t.name in done:
                 continue
             done.add(t.name)
-            src.append(f'type {t.name} struct {{ {LAYOUTS[t.layout][0]} }}')
+            if t.embeds:
+                src.append(f'type {t.name} struct {{ Pad int64; {t.embeds[0]} }}' if t.embeds[1] == 'A' else
+                           f'type {t.name} struct {{ {t.embeds[0]}; Tail string }}')
+            else:
+                src.append(f'type {t.name} struct {{ {LAYOUTS[t.layout][0]} }}')
+            if t.outer:   # the method set through which promoted methods are called
+                sigs = '; '.join(f'{m}({PARAMS[np_][0]}) int64' for (m, ptr, np_) in t.methods if m[0].isupper())
+                src.append(f'type if{t.name} interface {{ {sigs} }}')
+                for (m, ptr, np_) in t.methods:
+                    if m[0].isupper():   # a real interface call (the caller cannot see the dynamic type, so no devirtualisation)
+                        ps = PARAMS[np_][0]
+                        an = ['', 'x', 'x, s', 'a, b'][np_]
+                        src.append(f'func callIf{t.name}{m}(n if{t.name}{", " + ps if ps else ""}) int64 {{ return n.{m}({an}) }}')
         src.append('')
         for e in by_pk[pk]:
-            if not e['generic']:
+            if not e['generic'] and not e['promoted']:
                 a = 'int64(t.A)*1000003 + ' if e['layout'] != 4 else ''
                 src.append(f'func (t {"*" if e["ptr"] else ""}{e["T"]}) {e["m"]}({PARAMS[e["np"]][0]}) int64 {{ return {a}{e["K"]}{body_tail(e["np"], e["id"] % 3 == 1)} }}')
         src.append('')
@@ -212,7 +251,8 @@ def emit_sources(types, gens, entries, outdir):
     for e in entries:
         call = f'CallE{e["id"]}' if e['pk'] == 'pa' else f'{PKGS[e["pk"]][2]}.CallE{e["id"]}'
         reg.append(f'\t{{ID: {e["id"]}, Pkg: "{e["pkg"]}", T: "{e["T"]}", Ptr: {"true" if e["ptr"] else "false"}, M: "{e["m"]}", '
-                   f'K: {e["K"]}, NP: {e["np"]}, Call: {call}, Look: lookE{e["id"]}, Cb: cbE{e["id"]}, StandIn: standInE{e["id"]}}},')
+                   f'K: {e["K"]}, NP: {e["np"]}, Call: {call}, Look: lookE{e["id"]}, Cb: cbE{e["id"]}, StandIn: standInE{e["id"]}, '
+                   f'Tmpl: {("tmplE%d" % e["id"]) if (e["pk"] == "pa" or e["exported_type"]) else "nil"}}},')
     reg.append('}')
     d = os.path.join(outdir, 'pa')
     fp = os.path.join(d, 'reg_gen_test.go')
@@ -226,8 +266,8 @@ def emit_sources(types, gens, entries, outdir):
 def body_tail(np_, helper=False):
     """non-leaf variant: the multiplication goes through the (never inlined) helper w.Id, so the body contains a CALL"""
     if helper:
-        return [' + w.Id(0)', ' + w.Id(x*31)', ' + w.Id(x*31) + int64(len(s))'][np_]
-    return ['', ' + x*31', ' + x*31 + int64(len(s))'][np_]
+        return [' + w.Id(0)', ' + w.Id(x*31)', ' + w.Id(x*31) + int64(len(s))', ' + w.Id(a[0]*31) + b[3]'][np_]
+    return ['', ' + x*31', ' + x*31 + int64(len(s))', ' + a[0]*31 + b[3]'][np_]
 
 
 def inst_literal(e, a):
@@ -245,9 +285,25 @@ def want_stmt(e, expr):
     return f'w.Want{lay} = w.Lay{lay}({expr}); w.WantA = {a}'
 
 
+def outer_literal(outer, shape, base, lay, a, pad):
+    inner = f'{base}{{{LAYOUTS[lay][1](a)}}}'
+    return f'{outer}{{Pad: {pad}, {base}: {inner}}}' if shape == 'A' else f'{outer}{{{base}: {inner}, Tail: "tl{pad}"}}'
+
+
 def call_func(e):
     args = PARAMS[e['np']][1]
     L = [f'// CallE{e["id"]} calls {e["go"]}.{e["m"]} on instance inst.', f'func CallE{e["id"]}(inst int) int64 {{']
+    if e['promoted']:
+        # a promoted method, called through the method set of *Outer (interface call -> compiler-generated wrapper)
+        base, shape = e['promoted']
+        L.append('\tswitch inst {')
+        for inst, a in ((0, 111 + e['id'] % 5), (1, 2222), (2, 33333)):
+            L += [f'\tcase {inst}:', f'\t\tp := &{outer_literal(e["T"], shape, base, e["layout"], a, inst + 3)}',
+                  '\t\tw.WantPtr = unsafe.Pointer(p)', f'\t\tw.WantBasePtr = unsafe.Pointer(&p.{base})',
+                  f'\t\tw.Want{e["layout"]} = w.Lay{e["layout"]}(p.{base})', '\t\tw.WantA = int64(p.A)',
+                  f'\t\treturn callIf{base}{e["m"]}(p{", " + args if args else ""})']
+        L += ['\t}', '\treturn 0', '}', '']
+        return '\n'.join(L)
     if e['generic']:
         L.append(f'\tw.GenK = {e["K"]}')
     L.append('\tswitch inst {')
@@ -255,11 +311,19 @@ def call_func(e):
         if e['layout'] == 3:
             a = a % 20000
         L.append(f'\tcase {inst}:')
-        if e['ptr']:
+        if e.get('outer') and inst == 2:
+            # the base method reached by a DIRECT call on an outer instance: o.m() is (&o.Base).m() / o.Base.m()
+            lay = e['layout']
+            L += [f'\t\to := &{outer_literal(e["outer"], "A", e["T"], lay, a, 9)}',
+                  f'\t\tw.WantPtr = unsafe.Pointer(&o.{e["T"]})', '\t\tw.WantBasePtr = w.WantPtr', f'\t\t{want_stmt(e, "o." + e["T"])}',
+                  f'\t\treturn o.{e["m"]}({args})']
+        elif e['ptr']:
             if inst == 2:  # addressable value, auto-&
-                L += [f'\t\tv := {inst_literal(e, a)}', f'\t\tw.WantPtr = unsafe.Pointer(&v)', f'\t\t{want_stmt(e, "v")}', f'\t\treturn v.{e["m"]}({args})']
+                L += [f'\t\tv := {inst_literal(e, a)}', f'\t\tw.WantPtr = unsafe.Pointer(&v)', '\t\tw.WantBasePtr = w.WantPtr', f'\t\t{want_stmt(e, "v")}',
+                      f'\t\treturn v.{e["m"]}({args})']
             else:
-                L += [f'\t\tp := &{inst_literal(e, a)}', f'\t\tw.WantPtr = unsafe.Pointer(p)', f'\t\t{want_stmt(e, "(*p)")}', f'\t\treturn p.{e["m"]}({args})']
+                L += [f'\t\tp := &{inst_literal(e, a)}', f'\t\tw.WantPtr = unsafe.Pointer(p)', '\t\tw.WantBasePtr = w.WantPtr', f'\t\t{want_stmt(e, "(*p)")}',
+                      f'\t\treturn p.{e["m"]}({args})']
         else:
             if inst == 2:  # pointer-held instance of a value-receiver method
                 L += [f'\t\tp := &{inst_literal(e, a)}', f'\t\t{want_stmt(e, "(*p)")}', f'\t\treturn p.{e["m"]}({args})']
@@ -274,7 +338,7 @@ def mock_func(e):
     cbE<id> (typed callback number k), standInE<id> (typed stand-in for As)."""
     ps = PARAMS[e['np']][0]
     pl = (', ' + ps) if ps else ''
-    argok = ['true', 'x == w.WantX', 'x == w.WantX && s == w.WantS'][e['np']]
+    argok = ['true', 'x == w.WantX', 'x == w.WantX && s == w.WantS', 'a == w.WantArr && b == w.WantArr2'][e['np']]
     lay = e['layout']
     i = e['id']
     visible = e['pk'] == 'pa' or e['exported_type']
@@ -282,11 +346,15 @@ def mock_func(e):
     real_cb = real_si = None
     if visible:
         T = go_type(e, 'pa')
-        if e['generic']:
+        if e['promoted']:
+            recv_ok = '(unsafe.Pointer(r) == w.WantPtr && int64(r.A) == w.WantA)'
+            filled = outer_literal(T, e['promoted'][1], e['promoted'][0], lay, 5, 5)
+        elif e['generic']:
             recv_ok = '(unsafe.Pointer(r) == w.WantPtr && r.A == w.WantA)' if e['ptr'] else '(r.A == w.WantA)'
             filled = f'{T}{{A: 5}}'
         elif e['ptr']:
-            recv_ok = f'(unsafe.Pointer(r) == w.WantPtr && w.Lay{lay}(*r) == w.Want{lay})'
+            wp = 'w.WantBasePtr' if e.get('outer') else 'w.WantPtr'    # embedded base: the pointer to the embedded field
+            recv_ok = f'(unsafe.Pointer(r) == {wp} && w.Lay{lay}(*r) == w.Want{lay})'
             filled = f'{T}{{{LAYOUTS[lay][1](5)}}}'
         else:
             recv_ok = f'(w.Lay{lay}(r) == w.Want{lay})'
@@ -301,9 +369,12 @@ def mock_func(e):
         else:
             L += ['\tcase "f":', f'\t\treturn {filled}', '\t}', f'\treturn {T}{{}}', '}', '']
     fake_cb = fake_si = None
-    if not e['generic']:
+    if e['promoted']:
+        fake_cb, fake_si = real_cb, real_si        # same package: the by-name paths can use the real outer type
+    elif not e['generic']:
         if e['ptr']:
-            frecv, fok = f'*w.Lay{lay}', f'(unsafe.Pointer(r) == w.WantPtr && *r == w.Want{lay})'
+            wp = 'w.WantBasePtr' if e.get('outer') else 'w.WantPtr'
+            frecv, fok = f'*w.Lay{lay}', f'(unsafe.Pointer(r) == {wp} && *r == w.Want{lay})'
         else:
             frecv, fok = f'w.Lay{lay}', f'(r == w.Want{lay})'
         fake_cb = f'func(r {frecv}{pl}) int64 {{ w.Hit(k, {fok}, {argok}); return w.Sentinel }}'
@@ -467,7 +538,7 @@ def gen_hists(tier, rng, entries):
             ('relookup', [lk, f'T~0~{val(10)}', f'L~1~{step_tok(via, e)}', 'A~1', f'L~2~{step_tok(via, e)}', f'T~2~{val(11)}']),
             ('reset-rearm-apply', [lk, 'A~0', 'R', f'S~0~{val(12)}~{val(13)}', 'A~0']),
         ]
-        if via == 'SM' and e['np'] >= 1 and not e['generic']:
+        if via == 'SM' and e['np'] in (1, 2) and not e['generic']:
             P += [
                 ('returns-when', [lk, f'SW~0~{val(20)}~{val(21)}~1~{val(22)}']),
                 ('returns-when-nomatch', [lk, f'SW~0~{val(23)}~{val(24)}~0~{val(25)}']),
@@ -507,7 +578,7 @@ def gen_hists(tier, rng, entries):
                 steps.append(f'C~{h}'); has_default[h] = False
             elif r == 6:
                 steps.append('R'); has_default = [False] * len(picks)
-            elif via == 'SM' and e['np'] >= 1 and not e['generic']:
+            elif via == 'SM' and e['np'] in (1, 2) and not e['generic']:
                 if r == 7:
                     steps.append(f'W~{h}~1~{val(n)}')
                 elif r == 8 and has_default[h]:
@@ -520,6 +591,34 @@ def gen_hists(tier, rng, entries):
                 if ov and all(call_sym(o) != call_sym(pe) for pe, _ in picks):
                     steps.append(step_tok(rng.choice(ov), o))
         H.append(('handle:random', steps))
+    # lane 9: ONE mocker object made with the exported constructors (mocker.go NewUnexportedMethodMocker / NewMethodMocker),
+    # pointed at successive method names with Method(..)
+    def um_tok(op, h, e):
+        return f'{op}~{h}~UM~{e["pkg"]}~{"(*" + e["T"] + ")" if e["ptr"] else e["T"]}~{e["m"]}~{e["id"]}'
+    def mm_tok(op, h, e, tmpl=None):
+        return f'{op}~{h}~MM~{e["pkg"]}~{e["T"]}~{1 if e["ptr"] else 0}~{e["m"]}~{e["id"]}' + (f'~{tmpl}' if tmpl else '')
+    nre = 0
+    for (pk, T), es in by_type.items():
+        if es[0]['generic'] and False:
+            continue
+        for ptr in (True, False):
+            same = [e for e in es if e['ptr'] == ptr]
+            ums = [e for e in same if not e['generic']]
+            mms = [e for e in same if e['m'][0].isupper() and (e['pk'] == 'pa' or e['exported_type'])]
+            for tokf, grp in ((um_tok, ums), (mm_tok, mms)):
+                if len(grp) < 2:
+                    continue
+                nre += 1
+                if tier == 'quick' and nre % 2:
+                    continue
+                a, b2 = grp[0], grp[1]
+                c = grp[2] if len(grp) > 2 else grp[0]
+                H.append(('reuse:apply-cancel-apply', [tokf('D', 0, a), 'A~0', 'C~0', tokf('RD', 0, b2), 'A~0']))
+                H.append(('reuse:return-cancel-return', [tokf('D', 0, a), f'T~0~{val(40)}', 'C~0', tokf('RD', 0, b2), f'T~0~{val(41)}']))
+                H.append(('reuse:three', [tokf('D', 0, a), 'A~0', 'C~0', tokf('RD', 0, b2), f'T~0~{val(42)}', 'C~0', tokf('RD', 0, c), 'A~0',
+                                          step_tok(rng.choice([v for v in vias_for(a) if not (a['generic'] and v == 'SX')] or ['SM']), a)
+                                          if c['id'] != a['id'] and [v for v in vias_for(a) if not (a['generic'] and v == 'SX')] else 'R']))
+                H.append(('reuse:two-objects', [tokf('D', 0, a), tokf('D', 1, b2), 'A~0', 'A~1', 'C~0', tokf('RD', 0, c), 'R', 'A~0' if c['id'] != b2['id'] else 'R']))
     # lane 5: the C06-K1 follow-up, oracle only (the Lean model does not cover a patched generic wrapper)
     gex = [e for e in entries if e['generic'] and e['m'][0].isupper()]
     for e in gex[:4 if tier == 'quick' else 20]:
@@ -577,6 +676,7 @@ def oracle(steps, obs, entries, index):
     name = lambda e: f'{e["pkg"]}.{e["go"]}.{e["m"]}'
     armed = {}        # call symbol -> {'kind': 'cb'|'stub', 'k': step, 'vals': set, 'targets': set(entry ids)}
     handles = {}      # handle -> entry or None
+    direct = set()    # handles of mockers made with the exported constructors
     gaps = []         # (step, entry): by-name step on a generic instantiation (known finding C06-K1)
     byname_generic = set()
     for k, tok in enumerate(steps):
@@ -585,7 +685,20 @@ def oracle(steps, obs, entries, index):
         if op == 'R':
             if res[k] != 'ok':
                 return f'builder Reset answered {res[k]}', None, notes
-            armed = {}
+            armed = {sy: a for sy, a in armed.items() if a.get('h') in direct}    # the builder does not know directly constructed mockers
+            continue
+        if op in ('D', 'RD'):
+            if f[2] == 'UM':
+                sn = f[4]
+                ptr = sn.startswith('(*') and sn.endswith(')')
+                e = index.get((f[3], sn[2:-1] if ptr else sn, ptr, f[5]))
+            else:
+                e = index.get((f[3], f[4], f[5] == '1', f[6])) if f[6][:1].isupper() else None
+            if op == 'D':
+                direct.add(f[1])
+            handles[f[1]] = e if res[k] == 'ok' else None
+            if e is not None and res[k] != 'ok':
+                return f'step {k} `{tok}` names an existing method with the right receiver kind but was answered {res[k]}', None, notes
             continue
         if op == 'L':
             e = step_target('~'.join(f[2:]), entries, index)
@@ -604,7 +717,7 @@ def oracle(steps, obs, entries, index):
             if op == 'C':
                 armed.pop(sym, None)
             elif op == 'A':
-                armed[sym] = {'kind': 'cb', 'k': k, 'vals': set(), 'targets': {e['id']}}
+                armed[sym] = {'kind': 'cb', 'k': k, 'vals': set(), 'targets': {e['id']}, 'h': f[1]}
             else:
                 if op == 'T':
                     vals = f[2:3]
@@ -617,7 +730,7 @@ def oracle(steps, obs, entries, index):
                 if cur is not None and cur['kind'] == 'stub' and cur['k_handle'] == f[1]:
                     cur['vals'].update(vals)
                 else:
-                    armed[sym] = {'kind': 'stub', 'k': k, 'vals': set(vals), 'targets': {e['id']}, 'k_handle': f[1]}
+                    armed[sym] = {'kind': 'stub', 'k': k, 'vals': set(vals), 'targets': {e['id']}, 'k_handle': f[1], 'h': f[1]}
             continue
         # one-shot: lookup + Apply(callback k)
         e = step_target(tok, entries, index)
@@ -633,6 +746,11 @@ def oracle(steps, obs, entries, index):
     for i, h in hits.items():
         e = entries[i]
         a = armed.get(call_sym(e))
+        via_base = False
+        if a is None and e.get('promoted'):
+            # Go semantics: the wrapper pkg.(*Outer).m calls the embedded type's method, so a mock of the base method shows
+            a = armed.get(call_sym(entries[e['base_id']]))
+            via_base = a is not None
         if a is None:
             return (f'{name(e)} does not run its original body ({"/".join(h["t"])}) although no step currently mocks it '
                     f'(steps: {" ; ".join(steps)})'), None, notes
@@ -648,7 +766,7 @@ def oracle(steps, obs, entries, index):
             if badv:
                 return (f'{name(e)} shows {"/".join(h["t"])} on its three instances, but it is currently stubbed (step {a["k"]}) '
                         f'to return one of {sorted(a["vals"])}'), None, notes
-        if i not in a['targets']:
+        if i not in a['targets'] and not via_base:
             if not (e['generic'] and any(call_sym(entries[j]) == call_sym(e) for j in a['targets'])):
                 return f'{name(e)} is replaced but was not named', None, notes
             notes['same-shape-sibling-mocked'] += 1
@@ -699,7 +817,9 @@ def read_syms(binary):
 
 
 def entry_tok(e):
-    return f'{e["pkg"]}~{e["T"]}~{1 if e["ptr"] else 0}~{e["m"]}~{e["shape"]}~{e["np"]}'
+    # np on the wire = ordinary parameters passed in REGISTERS (the ones a shape body's dictionary displaces); kind 3 has none
+    return (f'{e["pkg"]}~{e["T"]}~{1 if e["ptr"] else 0}~{e["m"]}~{e["shape"]}~{0 if e["np"] == 3 else e["np"]}'
+            f'~{e["base_id"] if e.get("promoted") else "-"}')
 
 
 def run_impl(binary, ops_path, n, tag):
@@ -854,4 +974,8 @@ def replay(body):
             e = entries[i]
             print(f'  replaced: #{i} {e["pkg"]}.{("(*" + e["go"] + ")") if e["ptr"] else e["go"]}.{e["m"]} -> {h}')
     print(f'  impl : {impl[0]}\n  model: {model[0] if model else None}\n  oracle: {why or "ok"}' + (f' [known-finding key {key}]' if key else ''))
+    known = key is not None and any(kf.get('status') == 'known' and kf.get('match', {}).get('key') == key for kf in C.known_findings('C06'))
+    if known:
+        print(f'KNOWN-FINDING: property=C06 (key {key})')
+        return 0
     return 1 if (why or (model and impl[0] != model[0])) else 0
